@@ -220,6 +220,307 @@ theorem struct_with (n : Spec.Name) (ea eb : Expr) (down : Bool) (body : List St
         (by push_cast; omega) (cons_congr (jzStmt_congr _ (by push_cast; omega) (by push_cast; omega))
           (append_congr (emit_congr _ _ (by push_cast; omega)) (cons_congr (stmt_congr _ (by push_cast; omega)) rfl)))) rfl))
 
+/-! ### `repeat with v in l`: the peek protocol (list, count, counter on the stack) -/
+
+set_option linter.unusedSimpArgs false in
+set_option linter.unusedVariables false in
+section
+
+theorem runIs_cons_ok' {ctx : Lscr.Ctx} {a : Nat} {i : Instr} {is : List Instr} {st st1 : PState} (h : execI ctx i (a : Int) st = .ok st1) :
+    runIs ctx a (i :: is) st = runIs ctx (a + i.size) is st1 := by
+  simp only [runIs, h]
+
+theorem layoutStmt_in (te : Option Nat) (pre cnd bp : List Instr) (cbody : List CStmt) (incr post : List Instr) :
+    layoutStmt te (.loop pre cnd bp cbody incr post) =
+      pre ++ cnd ++ [.op3 0x95 (3 + (codeSize bp + CStmt.sizes cbody + codeSize incr) + 2)] ++ bp ++ layoutStmts (some (codeSize incr + 2)) cbody ++ incr
+        ++ [.op2 0x54 (codeSize cnd + 3 + (codeSize bp + CStmt.sizes cbody + codeSize incr))] ++ post := by
+  simp [layoutStmt]
+
+/-- the list, its count, the counter: the prologue of `repeat with x in l` -/
+theorem run_in_pre (ctx : Lscr.Ctx) (a ic : Nat) (cl : List Instr) (st : PState) (ln : Node) (gv0 : List Node)
+    (hn : ctx.names[ic]? = some (S "count"))
+    (h : runIs ctx a cl st = .ok { st with stack := ln :: st.stack, gvars := gv0 }) :
+    runIs ctx a (cl ++ [.op2 0x64 0, .op2 0x43 1, .op2 0x57 ic, .op2 0x41 1]) st =
+      .ok { st with gvars := gv0, stack := (.leaf .const (.s (S "1")) ((a + codeSize cl + 6 : Nat) : Int) :: Node.callFn (.s (S "count")) ((a + codeSize cl + 4 : Nat) : Int) (.loadList (S "<load_list>") ((a + codeSize cl + 2 : Nat) : Int) [ln]) true false false .none :: ln :: st.stack) } := by
+  obtain ⟨stk, bpc, tl, gv, sts⟩ := st
+  rw [runIs_bind_ok h]
+  have h1 : execI ctx (.op2 0x64 0) ((a + codeSize cl : Nat) : Int) ⟨ln :: stk, bpc, tl, gv0, sts⟩ = .ok ⟨ln :: ln :: stk, bpc, tl, gv0, sts⟩ :=
+    exec_peek ctx 0 _ _ ln rfl
+  have h2 : execI ctx (.op2 0x43 1) ((a + codeSize cl + 2 : Nat) : Int) ⟨ln :: ln :: stk, bpc, tl, gv0, sts⟩ =
+      .ok ⟨.loadList (S "<load_list>") ((a + codeSize cl + 2 : Nat) : Int) [ln] :: ln :: stk, bpc, tl, gv0, sts⟩ := by
+    have := exec_args1 ctx true 1 ((a + codeSize cl + 2 : Nat) : Int) ⟨ln :: ln :: stk, bpc, tl, gv0, sts⟩ (by simp)
+    simpa [listName] using this
+  have h3 : execI ctx (.op2 0x57 ic) ((a + codeSize cl + 2 + 2 : Nat) : Int) ⟨.loadList (S "<load_list>") ((a + codeSize cl + 2 : Nat) : Int) [ln] :: ln :: stk, bpc, tl, gv0, sts⟩ =
+      .ok ⟨.callFn (.s (S "count")) ((a + codeSize cl + 2 + 2 : Nat) : Int) (.loadList (S "<load_list>") ((a + codeSize cl + 2 : Nat) : Int) [ln]) true false false .none :: ln :: stk, bpc, tl, gv0, sts⟩ := by
+    have := exec_callext ctx ic (S "count") hn ((a + codeSize cl + 2 + 2 : Nat) : Int)
+      ⟨.loadList (S "<load_list>") ((a + codeSize cl + 2 : Nat) : Int) [ln] :: ln :: stk, bpc, tl, gv0, sts⟩ true _ [ln] (ln :: stk) rfl
+    simpa [listName] using this
+  have h4 : execI ctx (.op2 0x41 1) ((a + codeSize cl + 2 + 2 + 2 : Nat) : Int)
+      ⟨.callFn (.s (S "count")) ((a + codeSize cl + 2 + 2 : Nat) : Int) (.loadList (S "<load_list>") ((a + codeSize cl + 2 : Nat) : Int) [ln]) true false false .none :: ln :: stk, bpc, tl, gv0, sts⟩ =
+      .ok ⟨.leaf .const (.s (S "1")) ((a + codeSize cl + 2 + 2 + 2 : Nat) : Int) ::
+        Node.callFn (.s (S "count")) ((a + codeSize cl + 2 + 2 : Nat) : Int) (.loadList (S "<load_list>") ((a + codeSize cl + 2 : Nat) : Int) [ln]) true false false .none :: ln :: stk, bpc, tl, gv0, sts⟩ := by
+    have := exec_int1 ctx 1 (by omega) ((a + codeSize cl + 2 + 2 + 2 : Nat) : Int)
+      ⟨.callFn (.s (S "count")) ((a + codeSize cl + 2 + 2 : Nat) : Int) (.loadList (S "<load_list>") ((a + codeSize cl + 2 : Nat) : Int) [ln]) true false false .none :: ln :: stk, bpc, tl, gv0, sts⟩
+    rw [natStr_one] at this
+    exact this
+  rw [runIs_cons_ok' h1]
+  show runIs ctx (a + codeSize cl + 2) _ _ = _
+  rw [runIs_cons_ok' h2]
+  show runIs ctx (a + codeSize cl + 2 + 2) _ _ = _
+  rw [runIs_cons_ok' h3]
+  show runIs ctx (a + codeSize cl + 2 + 2 + 2) _ _ = _
+  rw [runIs_single, h4]
+
+/-- `counter <= count`: the loop condition -/
+theorem run_in_cnd (ctx : Lscr.Ctx) (a : Nat) (st : PState) (kn cn ln : Node) (rest : List Node) (hs : st.stack = kn :: cn :: ln :: rest) :
+    runIs ctx a [.op2 0x64 0, .op2 0x64 2, .op1 0x0d] st =
+      .ok { st with stack := .binary (S "lte") ((a + 4 : Nat) : Int) kn cn :: st.stack } := by
+  obtain ⟨stk, bpc, tl, gv, sts⟩ := st
+  simp only at hs
+  subst hs
+  have h1 : execI ctx (.op2 0x64 0) (a : Int) ⟨kn :: cn :: ln :: rest, bpc, tl, gv, sts⟩ = .ok ⟨kn :: kn :: cn :: ln :: rest, bpc, tl, gv, sts⟩ :=
+    exec_peek ctx 0 _ _ kn rfl
+  have h2 : execI ctx (.op2 0x64 2) ((a + 2 : Nat) : Int) ⟨kn :: kn :: cn :: ln :: rest, bpc, tl, gv, sts⟩ =
+      .ok ⟨cn :: kn :: kn :: cn :: ln :: rest, bpc, tl, gv, sts⟩ := exec_peek ctx 2 _ _ cn rfl
+  have h3 : execI ctx (.op1 0x0d) ((a + 2 + 2 : Nat) : Int) ⟨cn :: kn :: kn :: cn :: ln :: rest, bpc, tl, gv, sts⟩ =
+      .ok ⟨.binary (S "lte") ((a + 2 + 2 : Nat) : Int) kn cn :: kn :: cn :: ln :: rest, bpc, tl, gv, sts⟩ :=
+    exec_bin ctx .le _ _ kn cn (kn :: cn :: ln :: rest) rfl
+  rw [runIs_cons_ok' h1]
+  show runIs ctx (a + 2) _ _ = _
+  rw [runIs_cons_ok' h2]
+  show runIs ctx (a + 2 + 2) _ _ = _
+  rw [runIs_single, h3]
+
+/-- `set x = getAt(l, counter)`: the first statement of the body -/
+theorem run_in_bp (ctx : Lscr.Ctx) (a ig j : Nat) (st : PState) (hb : st.bpc = 6) (lvn kn cn ln : Node) (rest : List Node)
+    (hn : ctx.names[ig]? = some (S "getAt")) (hlv : ctx.localVars[j]? = some lvn) (hs : st.stack = kn :: cn :: ln :: rest) :
+    runIs ctx a [.op2 0x64 2, .op2 0x64 1, .op2 0x43 2, .op2 0x57 ig, .op2 0x52 (6 * j)] st =
+      .ok { st with stmts := st.stmts ++ [.stmt ((a + 8 : Nat) : Int) (.binary (S "assign") ((a + 8 : Nat) : Int) lvn
+        (.callFn (.s (S "getAt")) ((a + 6 : Nat) : Int) (.loadList (S "<load_list>") ((a + 4 : Nat) : Int) [kn, ln]) true false false .none))] } := by
+  obtain ⟨stk, bpc, tl, gv, sts⟩ := st
+  simp only at hs hb
+  subst hs; subst hb
+  have h1 : execI ctx (.op2 0x64 2) (a : Int) ⟨kn :: cn :: ln :: rest, 6, tl, gv, sts⟩ = .ok ⟨ln :: kn :: cn :: ln :: rest, 6, tl, gv, sts⟩ :=
+    exec_peek ctx 2 _ _ ln rfl
+  have h2 : execI ctx (.op2 0x64 1) ((a + 2 : Nat) : Int) ⟨ln :: kn :: cn :: ln :: rest, 6, tl, gv, sts⟩ =
+      .ok ⟨kn :: ln :: kn :: cn :: ln :: rest, 6, tl, gv, sts⟩ := exec_peek ctx 1 _ _ kn rfl
+  have h3 : execI ctx (.op2 0x43 2) ((a + 2 + 2 : Nat) : Int) ⟨kn :: ln :: kn :: cn :: ln :: rest, 6, tl, gv, sts⟩ =
+      .ok ⟨.loadList (S "<load_list>") ((a + 2 + 2 : Nat) : Int) [kn, ln] :: kn :: cn :: ln :: rest, 6, tl, gv, sts⟩ := by
+    have := exec_args1 ctx true 2 ((a + 2 + 2 : Nat) : Int) ⟨kn :: ln :: kn :: cn :: ln :: rest, 6, tl, gv, sts⟩ (by simp)
+    simpa [listName] using this
+  have h4 : execI ctx (.op2 0x57 ig) ((a + 2 + 2 + 2 : Nat) : Int) ⟨.loadList (S "<load_list>") ((a + 2 + 2 : Nat) : Int) [kn, ln] :: kn :: cn :: ln :: rest, 6, tl, gv, sts⟩ =
+      .ok ⟨.callFn (.s (S "getAt")) ((a + 2 + 2 + 2 : Nat) : Int) (.loadList (S "<load_list>") ((a + 2 + 2 : Nat) : Int) [kn, ln]) true false false .none :: kn :: cn :: ln :: rest, 6, tl, gv, sts⟩ := by
+    have := exec_callext ctx ig (S "getAt") hn ((a + 2 + 2 + 2 : Nat) : Int)
+      ⟨.loadList (S "<load_list>") ((a + 2 + 2 : Nat) : Int) [kn, ln] :: kn :: cn :: ln :: rest, 6, tl, gv, sts⟩ true _ [kn, ln] (kn :: cn :: ln :: rest) rfl
+    simpa [listName] using this
+  have h5 := exec_setloc ctx j lvn hlv ((a + 2 + 2 + 2 + 2 : Nat) : Int)
+    ⟨.callFn (.s (S "getAt")) ((a + 2 + 2 + 2 : Nat) : Int) (.loadList (S "<load_list>") ((a + 2 + 2 : Nat) : Int) [kn, ln]) true false false .none :: kn :: cn :: ln :: rest, 6, tl, gv, sts⟩
+    rfl _ (kn :: cn :: ln :: rest) rfl
+  rw [runIs_cons_ok' h1]
+  show runIs ctx (a + 2) _ _ = _
+  rw [runIs_cons_ok' h2]
+  show runIs ctx (a + 2 + 2) _ _ = _
+  rw [runIs_cons_ok' h3]
+  show runIs ctx (a + 2 + 2 + 2) _ _ = _
+  rw [runIs_cons_ok' h4]
+  show runIs ctx (a + 2 + 2 + 2 + 2) _ _ = _
+  rw [runIs_single, h5]
+
+/-- `counter + 1`: the step -/
+theorem run_in_incr (ctx : Lscr.Ctx) (a : Nat) (st : PState) (kn : Node) (rest : List Node) (hs : st.stack = kn :: rest) :
+    runIs ctx a [.op2 0x41 1, .op1 0x05] st =
+      .ok { st with stack := .binary (S "add") ((a + 2 : Nat) : Int) kn (.leaf .const (.s (S "1")) (a : Int)) :: rest } := by
+  obtain ⟨stk, bpc, tl, gv, sts⟩ := st
+  simp only at hs
+  subst hs
+  have h1 : execI ctx (.op2 0x41 1) (a : Int) ⟨kn :: rest, bpc, tl, gv, sts⟩ = .ok ⟨.leaf .const (.s (S "1")) (a : Int) :: kn :: rest, bpc, tl, gv, sts⟩ := by
+    have := exec_int1 ctx 1 (by omega) (a : Int) ⟨kn :: rest, bpc, tl, gv, sts⟩
+    rw [natStr_one] at this
+    exact this
+  have h2 : execI ctx (.op1 0x05) ((a + 2 : Nat) : Int) ⟨.leaf .const (.s (S "1")) (a : Int) :: kn :: rest, bpc, tl, gv, sts⟩ =
+      .ok ⟨.binary (S "add") ((a + 2 : Nat) : Int) kn (.leaf .const (.s (S "1")) (a : Int)) :: rest, bpc, tl, gv, sts⟩ :=
+    exec_bin ctx .add _ _ kn (.leaf .const (.s (S "1")) (a : Int)) rest rfl
+  rw [runIs_cons_ok' h1]
+  show runIs ctx (a + 2) _ _ = _
+  rw [runIs_single, h2]
+
+/-- the epilogue: the three protocol values are dropped -/
+theorem run_in_post (ctx : Lscr.Ctx) (a : Nat) (st : PState) (x y z : Node) (rest : List Node) (hs : st.stack = x :: y :: z :: rest) :
+    runIs ctx a [.op2 0x65 3] st = .ok { st with stack := rest } := by
+  rw [runIs_single, exec_discard ctx 3 _ st (by rw [hs]; simp)]
+  simp [hs]
+
+theorem stmt_congr' {p p' : Int} (c : Node) (h : p = p') : Node.stmt p c = Node.stmt p' c := by rw [h]
+
+theorem localOff_spec' (c : Spec.Ctx) (n : Spec.Name) (o : Nat) (h : c.localOff n = some o) :
+    ∃ j, idxOf n c.locals 0 = some j ∧ o = 6 * j := by
+  unfold Spec.Ctx.localOff at h
+  cases hi : idxOf n c.locals 0 with
+  | none => rw [hi] at h; cases h
+  | some j => rw [hi] at h; simp only [Option.map_some, Option.some.injEq] at h; exact ⟨j, rfl, h.symm⟩
+
+/-- `repeat with v in l … end repeat`, `v` a local variable -/
+theorem struct_in (n : Spec.Name) (el : Expr) (body : List Stmt) (hfl : FragE el = true) (hbody : Structs body) :
+    Struct1 (.repeatIn (.var .loc n) el body) := by
+  intro c hT s0 s1 cs h
+  rw [lowerStmt] at h
+  simp only [M_bind_ok, M_pure_ok, Prod.mk.injEq, lowerSet] at h
+  obtain ⟨cl, sA, hcl, ic, sB, hic, cnt, sB', hcnt, ig, sC, hig, gat, sC', hgat, setv, sD, hset, cbody, sE, hcbody, rfl, rfl⟩ := h
+  cases ho : c.localOff n with
+  | none => rw [ho] at hset; simp [Spec.fail] at hset
+  | some o =>
+    rw [ho] at hset
+    simp only [M_bind_ok, M_pure_ok, Prod.mk.injEq] at hset
+    obtain ⟨c2, s2, hop2, rfl, rfl⟩ := hset
+    obtain ⟨rfl, rfl, _⟩ := op2c_ok _ _ _ _ _ hop2
+    obtain ⟨rfl, rfl, _⟩ := op2c_ok _ _ _ _ _ hcnt
+    obtain ⟨rfl, rfl, _⟩ := op2c_ok _ _ _ _ _ hgat
+    obtain ⟨j, hj, rfl⟩ := localOff_spec' c n o ho
+    obtain ⟨eic, hgetc, _, _⟩ := nameIdx_ok _ _ _ _ hic
+    obtain ⟨eig, hgetg, _, _⟩ := nameIdx_ok _ _ _ _ hig
+    obtain ⟨e1, hopA, hrunA⟩ := stack_lemma el hfl c s0 _ cl hcl
+    obtain ⟨e3, _, hopC, hrunC⟩ := hbody c hT _ _ cbody hcbody
+    have hcs : ([CStmt.loop (cl ++ [Instr.op2 0x64 0, Instr.op2 0x43 1] ++ [Instr.op2 0x57 ic] ++ [Instr.op2 0x41 1])
+        [Instr.op2 0x64 0, Instr.op2 0x64 2, Instr.op1 0x0d]
+        ([Instr.op2 0x64 2, Instr.op2 0x64 1, Instr.op2 0x43 2] ++ [Instr.op2 0x57 ig] ++ [Instr.op2 0x52 (6 * j)]) cbody
+        [Instr.op2 0x41 1, Instr.op1 0x05] [Instr.op2 0x65 3]] : List CStmt) =
+        [CStmt.loop (cl ++ [Instr.op2 0x64 0, Instr.op2 0x43 1, Instr.op2 0x57 ic, Instr.op2 0x41 1])
+          [Instr.op2 0x64 0, Instr.op2 0x64 2, Instr.op1 0x0d]
+          [Instr.op2 0x64 2, Instr.op2 0x64 1, Instr.op2 0x43 2, Instr.op2 0x57 ig, Instr.op2 0x52 (6 * j)] cbody
+          [Instr.op2 0x41 1, Instr.op1 0x05] [Instr.op2 0x65 3]] := by simp
+    rw [hcs]
+    have hsp : codeSize (cl ++ [Instr.op2 0x64 0, Instr.op2 0x43 1, Instr.op2 0x57 ic, Instr.op2 0x41 1]) = codeSize cl + 8 := by
+      simp [codeSize_append, codeSize, Instr.size]
+    have hsc : codeSize [Instr.op2 0x64 0, Instr.op2 0x64 2, Instr.op1 0x0d] = 5 := by simp [codeSize, Instr.size]
+    have hsb : codeSize [Instr.op2 0x64 2, Instr.op2 0x64 1, Instr.op2 0x43 2, Instr.op2 0x57 ig, Instr.op2 0x52 (6 * j)] = 10 := by
+      simp [codeSize, Instr.size]
+    have hsi : codeSize [Instr.op2 0x41 1, Instr.op1 0x05] = 3 := by simp [codeSize, Instr.size]
+    refine ⟨(((e1.trans eic).trans eig).trans e3), by simp, ?_, ?_⟩
+    · intro te i hi
+      rw [layoutStmts_single, layoutStmt_in] at hi
+      simp only [List.mem_append, List.mem_cons, List.not_mem_nil, or_false] at hi
+      rcases hi with ((((((((hi | hi | hi | hi | hi) | hi | hi | hi) | hi) | hi | hi | hi | hi | hi) | hi) | hi | hi) | hi) | hi)
+      · exact hopA i hi
+      all_goals first | exact hopC _ i hi | (subst hi; simp [Instr.opc])
+    intro sF ctx hF hrel G hG hP te a st hb hgv hpos
+    have hGa : ∀ g ∈ el.vars .glob, g ∈ G := fun g hg => hG g (by simp [Stmt.vars, Expr.vars, hg])
+    have hGc : ∀ g ∈ Stmt.varsList .glob body, g ∈ G := fun g hg => hG g (by simp [Stmt.vars, hg])
+    have hPc : ∀ v ∈ Stmt.varsList .prop body, ctx.props.contains v = true := fun v hv => hP v (by simp [Stmt.vars, hv])
+    obtain ⟨pv, hlv⟩ := hrel.locals n j hj
+    have hnc : ctx.names[ic]? = some (S "count") := by rw [hrel.names]; exact ((eig.trans e3).trans hF).name hgetc
+    have hng : ctx.names[ig]? = some (S "getAt") := by rw [hrel.names]; exact (e3.trans hF).name hgetg
+    -- prologue
+    obtain ⟨ln, gv0, hembL, hgv0, hrL⟩ := hrunA sF ctx (((eic.trans eig).trans e3).trans hF) hrel G hGa a st hb hgv
+    have hpre := run_in_pre ctx a ic cl st ln gv0 hnc hrL
+    -- abbreviations for the protocol nodes
+    generalize hK : Node.leaf .const (.s (S "1")) ((a + codeSize cl + 6 : Nat) : Int) = kn at hpre
+    generalize hC : Node.callFn (.s (S "count")) ((a + codeSize cl + 4 : Nat) : Int) (.loadList (S "<load_list>") ((a + codeSize cl + 2 : Nat) : Int) [ln]) true false false .none = cn at hpre
+    -- condition
+    have hcnd := run_in_cnd ctx (a + (codeSize cl + 8)) { st with gvars := gv0, stack := (kn :: cn :: ln :: st.stack) } kn cn ln st.stack rfl
+    have hjz := run_jz ctx (a + (codeSize cl + 8)) _ (3 + (10 + CStmt.sizes cbody + 3) + 2) _ _ gv0 hcnd
+    rw [hsc] at hjz
+    -- first statement of the body
+    have hbp := run_in_bp ctx (a + (codeSize cl + 8) + 5 + 3) ig j
+      { st with gvars := gv0, stack := (kn :: cn :: ln :: st.stack), stmts := (st.stmts ++
+          [jzStmt ((a + (codeSize cl + 8) + 5 : Nat) : Int) (.binary (S "lte") ((a + (codeSize cl + 8) + 4 : Nat) : Int) kn cn)
+            (((a + (codeSize cl + 8) + 5 : Nat) : Int) + ((3 + (10 + CStmt.sizes cbody + 3) + 2 : Nat) : Int))]) }
+      hb (.leaf .localVar (.s n) pv) kn cn ln st.stack hng hlv rfl
+    -- body
+    have hpos1 : AllS (fun p _ => p < ((a + (codeSize cl + 8) + 5 + 3 + 10 : Nat) : Int))
+        ((st.stmts ++ [jzStmt ((a + (codeSize cl + 8) + 5 : Nat) : Int) (.binary (S "lte") ((a + (codeSize cl + 8) + 4 : Nat) : Int) kn cn)
+            (((a + (codeSize cl + 8) + 5 : Nat) : Int) + ((3 + (10 + CStmt.sizes cbody + 3) + 2 : Nat) : Int))]) ++
+          [.stmt ((a + (codeSize cl + 8) + 5 + 3 + 8 : Nat) : Int) (.binary (S "assign") ((a + (codeSize cl + 8) + 5 + 3 + 8 : Nat) : Int) (.leaf .localVar (.s n) pv)
+            (.callFn (.s (S "getAt")) ((a + (codeSize cl + 8) + 5 + 3 + 6 : Nat) : Int) (.loadList (S "<load_list>") ((a + (codeSize cl + 8) + 5 + 3 + 4 : Nat) : Int) [kn, ln]) true false false .none))]) :=
+      AllS.append (AllS.append (AllS.mono hpos fun _ _ hh => by push_cast; omega) (allS_jz _ _ _ (by push_cast; omega)))
+        (AllS.cons (by push_cast; omega) AllS.nil)
+    obtain ⟨b', hembb, hszb, gv2, hgv2, hr2⟩ := hrunC sF ctx hF hrel G hGc hPc (some (3 + 2)) (a + (codeSize cl + 8) + 5 + 3 + 10)
+      { st with gvars := gv0, stack := (kn :: cn :: ln :: st.stack), stmts := ((st.stmts ++
+          [jzStmt ((a + (codeSize cl + 8) + 5 : Nat) : Int) (.binary (S "lte") ((a + (codeSize cl + 8) + 4 : Nat) : Int) kn cn)
+            (((a + (codeSize cl + 8) + 5 : Nat) : Int) + ((3 + (10 + CStmt.sizes cbody + 3) + 2 : Nat) : Int))]) ++
+          [.stmt ((a + (codeSize cl + 8) + 5 + 3 + 8 : Nat) : Int) (.binary (S "assign") ((a + (codeSize cl + 8) + 5 + 3 + 8 : Nat) : Int) (.leaf .localVar (.s n) pv)
+            (.callFn (.s (S "getAt")) ((a + (codeSize cl + 8) + 5 + 3 + 6 : Nat) : Int) (.loadList (S "<load_list>") ((a + (codeSize cl + 8) + 5 + 3 + 4 : Nat) : Int) [kn, ln]) true false false .none))]) }
+      hb hgv0.1 hpos1
+    have hwfb := (embSrc_wf body b' hembb).1
+    have invb := emit_inv false ((a + (codeSize cl + 8) + 5 + 3 + 10 : Nat) : Int) (lower b') hwfb
+    -- step
+    have hinc := run_in_incr ctx (a + (codeSize cl + 8) + 5 + 3 + 10 + CStmt.sizes cbody)
+      { st with gvars := gv2, stack := (kn :: cn :: ln :: st.stack), stmts := (((st.stmts ++
+          [jzStmt ((a + (codeSize cl + 8) + 5 : Nat) : Int) (.binary (S "lte") ((a + (codeSize cl + 8) + 4 : Nat) : Int) kn cn)
+            (((a + (codeSize cl + 8) + 5 : Nat) : Int) + ((3 + (10 + CStmt.sizes cbody + 3) + 2 : Nat) : Int))]) ++
+          [.stmt ((a + (codeSize cl + 8) + 5 + 3 + 8 : Nat) : Int) (.binary (S "assign") ((a + (codeSize cl + 8) + 5 + 3 + 8 : Nat) : Int) (.leaf .localVar (.s n) pv)
+            (.callFn (.s (S "getAt")) ((a + (codeSize cl + 8) + 5 + 3 + 6 : Nat) : Int) (.loadList (S "<load_list>") ((a + (codeSize cl + 8) + 5 + 3 + 4 : Nat) : Int) [kn, ln]) true false false .none))]) ++
+          emit false ((a + (codeSize cl + 8) + 5 + 3 + 10 : Nat) : Int) (lower b')) }
+      kn (cn :: ln :: st.stack) rfl
+    -- back jump
+    have hbk := run_back ctx (a + (codeSize cl + 8) + 5 + 3 + 10 + CStmt.sizes cbody + 3) (5 + 3 + (10 + CStmt.sizes cbody + 3))
+      { st with gvars := gv2, stack := (.binary (S "add") ((a + (codeSize cl + 8) + 5 + 3 + 10 + CStmt.sizes cbody + 2 : Nat) : Int) kn
+            (.leaf .const (.s (S "1")) ((a + (codeSize cl + 8) + 5 + 3 + 10 + CStmt.sizes cbody : Nat) : Int)) :: cn :: ln :: st.stack), stmts := (((st.stmts ++
+          [jzStmt ((a + (codeSize cl + 8) + 5 : Nat) : Int) (.binary (S "lte") ((a + (codeSize cl + 8) + 4 : Nat) : Int) kn cn)
+            (((a + (codeSize cl + 8) + 5 : Nat) : Int) + ((3 + (10 + CStmt.sizes cbody + 3) + 2 : Nat) : Int))]) ++
+          [.stmt ((a + (codeSize cl + 8) + 5 + 3 + 8 : Nat) : Int) (.binary (S "assign") ((a + (codeSize cl + 8) + 5 + 3 + 8 : Nat) : Int) (.leaf .localVar (.s n) pv)
+            (.callFn (.s (S "getAt")) ((a + (codeSize cl + 8) + 5 + 3 + 6 : Nat) : Int) (.loadList (S "<load_list>") ((a + (codeSize cl + 8) + 5 + 3 + 4 : Nat) : Int) [kn, ln]) true false false .none))]) ++
+          emit false ((a + (codeSize cl + 8) + 5 + 3 + 10 : Nat) : Int) (lower b')) }
+      st.stmts
+      (jzStmt ((a + (codeSize cl + 8) + 5 : Nat) : Int) (.binary (S "lte") ((a + (codeSize cl + 8) + 4 : Nat) : Int) kn cn)
+            (((a + (codeSize cl + 8) + 5 : Nat) : Int) + ((3 + (10 + CStmt.sizes cbody + 3) + 2 : Nat) : Int)) ::
+        (.stmt ((a + (codeSize cl + 8) + 5 + 3 + 8 : Nat) : Int) (.binary (S "assign") ((a + (codeSize cl + 8) + 5 + 3 + 8 : Nat) : Int) (.leaf .localVar (.s n) pv)
+            (.callFn (.s (S "getAt")) ((a + (codeSize cl + 8) + 5 + 3 + 6 : Nat) : Int) (.loadList (S "<load_list>") ((a + (codeSize cl + 8) + 5 + 3 + 4 : Nat) : Int) [kn, ln]) true false false .none)) ::
+          emit false ((a + (codeSize cl + 8) + 5 + 3 + 10 : Nat) : Int) (lower b')))
+      ((a + (codeSize cl + 8) : Nat) : Int) (by simp [List.append_assoc]) (by push_cast; omega)
+      (AllS.mono hpos fun _ _ hh => by push_cast; omega)
+      (AllS.append (allS_jz _ _ _ (by push_cast; omega)) (AllS.cons (by push_cast; omega)
+        (AllS.mono invb fun _ _ hh => by have := hh.1; push_cast at *; omega)))
+    -- epilogue
+    have hpost := run_in_post ctx (a + (codeSize cl + 8) + 5 + 3 + 10 + CStmt.sizes cbody + 3 + 2)
+      { st with gvars := gv2, stack := (.binary (S "add") ((a + (codeSize cl + 8) + 5 + 3 + 10 + CStmt.sizes cbody + 2 : Nat) : Int) kn
+            (.leaf .const (.s (S "1")) ((a + (codeSize cl + 8) + 5 + 3 + 10 + CStmt.sizes cbody : Nat) : Int)) :: cn :: ln :: st.stack), stmts := (st.stmts ++ [.stmt ((a + (codeSize cl + 8) + 5 + 3 + 10 + CStmt.sizes cbody + 3 : Nat) : Int)
+            (rawLoop ((a + (codeSize cl + 8) : Nat) : Int) ((a + (codeSize cl + 8) + 5 + 3 + 10 + CStmt.sizes cbody + 3 : Nat) : Int)
+              (jzStmt ((a + (codeSize cl + 8) + 5 : Nat) : Int) (.binary (S "lte") ((a + (codeSize cl + 8) + 4 : Nat) : Int) kn cn)
+                (((a + (codeSize cl + 8) + 5 : Nat) : Int) + ((3 + (10 + CStmt.sizes cbody + 3) + 2 : Nat) : Int)) ::
+              (.stmt ((a + (codeSize cl + 8) + 5 + 3 + 8 : Nat) : Int) (.binary (S "assign") ((a + (codeSize cl + 8) + 5 + 3 + 8 : Nat) : Int) (.leaf .localVar (.s n) pv)
+                (.callFn (.s (S "getAt")) ((a + (codeSize cl + 8) + 5 + 3 + 6 : Nat) : Int) (.loadList (S "<load_list>") ((a + (codeSize cl + 8) + 5 + 3 + 4 : Nat) : Int) [kn, ln]) true false false .none)) ::
+              emit false ((a + (codeSize cl + 8) + 5 + 3 + 10 : Nat) : Int) (lower b'))))]) }
+      _ cn ln st.stack rfl
+    subst hK hC
+    refine ⟨.loop (.in_ (codeSize cl + 8)
+        ⟨10, 8, .binary (S "assign") ((a + (codeSize cl + 8) + 5 + 3 + 8 : Nat) : Int) (.leaf .localVar (.s n) pv)
+            (.callFn (.s (S "getAt")) ((a + (codeSize cl + 8) + 5 + 3 + 6 : Nat) : Int) (.loadList (S "<load_list>") ((a + (codeSize cl + 8) + 5 + 3 + 4 : Nat) : Int)
+              [.leaf .const (.s (S "1")) ((a + codeSize cl + 6 : Nat) : Int), ln]) true false false .none)⟩ 3 2) 5
+        (.binary (S "lte") ((a + (codeSize cl + 8) + 4 : Nat) : Int) (.leaf .const (.s (S "1")) ((a + codeSize cl + 6 : Nat) : Int))
+          (.callFn (.s (S "count")) ((a + codeSize cl + 4 : Nat) : Int) (.loadList (S "<load_list>") ((a + codeSize cl + 2 : Nat) : Int) [ln]) true false false .none)) b',
+      ⟨_, _, _, _, _, _, _, _, _, _, _, _, _, _, _, rfl, by simp only; omega, rfl, EmbH.toEmb _ _ _ hembL, hembb⟩, ?_, gv2, hgv0.trans hgv2, ?_⟩
+    · rw [size_in]
+      simp only [CStmt.sizes, CStmt.size, hsi, hsc, hsp, hsb, hszb]
+      simp [codeSize, Instr.size]
+      omega
+    · rw [layoutStmts_single, layoutStmt_in, hsb, hsi, hsc]
+      have hc95 : codeSize ([Instr.op2 0x64 0, Instr.op2 0x64 2, Instr.op1 0x0d] ++ [Instr.op3 0x95 (3 + (10 + CStmt.sizes cbody + 3) + 2)]) = 5 + 3 := by
+        simp [codeSize, Instr.size]
+      have hcb2 : codeSize (layoutStmts (some (3 + 2)) cbody) = CStmt.sizes cbody := layoutStmts_size _ _
+      have hc54 : codeSize [Instr.op2 0x54 (5 + 3 + (10 + CStmt.sizes cbody + 3))] = 2 := by simp [codeSize, Instr.size]
+      have hcode : cl ++ [Instr.op2 0x64 0, Instr.op2 0x43 1, Instr.op2 0x57 ic, Instr.op2 0x41 1] ++ [Instr.op2 0x64 0, Instr.op2 0x64 2, Instr.op1 0x0d] ++
+            [Instr.op3 0x95 (3 + (10 + CStmt.sizes cbody + 3) + 2)] ++
+            [Instr.op2 0x64 2, Instr.op2 0x64 1, Instr.op2 0x43 2, Instr.op2 0x57 ig, Instr.op2 0x52 (6 * j)] ++ layoutStmts (some (3 + 2)) cbody ++
+            [Instr.op2 0x41 1, Instr.op1 0x05] ++ [Instr.op2 0x54 (5 + 3 + (10 + CStmt.sizes cbody + 3))] ++ [Instr.op2 0x65 3] =
+          (cl ++ [Instr.op2 0x64 0, Instr.op2 0x43 1, Instr.op2 0x57 ic, Instr.op2 0x41 1]) ++
+            (([Instr.op2 0x64 0, Instr.op2 0x64 2, Instr.op1 0x0d] ++ [Instr.op3 0x95 (3 + (10 + CStmt.sizes cbody + 3) + 2)]) ++
+              ([Instr.op2 0x64 2, Instr.op2 0x64 1, Instr.op2 0x43 2, Instr.op2 0x57 ig, Instr.op2 0x52 (6 * j)] ++
+                (layoutStmts (some (3 + 2)) cbody ++ ([Instr.op2 0x41 1, Instr.op1 0x05] ++
+                  ([Instr.op2 0x54 (5 + 3 + (10 + CStmt.sizes cbody + 3))] ++ [Instr.op2 0x65 3]))))) := by
+        simp only [List.append_assoc]
+      rw [hcode]
+      dsimp only at hpre hjz hbp hr2 hinc hbk hpost
+      rw [runIs_bind_ok hpre, hsp, runIs_bind_ok hjz, hc95, ← Nat.add_assoc, runIs_bind_ok hbp, hsb, runIs_bind_ok hr2, hcb2,
+        runIs_bind_ok hinc, hsi, runIs_bind_ok hbk, hc54, hpost]
+      simp only [lower1, emit, emit1, emit1_simple, emit1_loop_raw, emit_append, List.append_nil, List.nil_append, List.append_assoc, List.cons_append,
+        P.sizes, P.size, Drx.LinkFlow.sizes_append, hszb, Bool.false_eq_true, if_false]
+      exact stmts_congr st gv2 (cons_congr (rawLoop_congr (by push_cast; omega) (by push_cast; omega)
+        (cons_congr (jzStmt_congr _ (by push_cast; omega) (by push_cast; omega))
+          (cons_congr (stmt_congr' _ (by push_cast; omega)) (emit_congr _ _ (by push_cast; omega))))) rfl)
+
+
+end
+
 /-! ### all structured statements of the fragment -/
 
 theorem structs_nil : Structs [] := by
@@ -232,8 +533,8 @@ theorem structs_nil : Structs [] := by
   exact ⟨[], rfl, by simp [lower, P.sizes, CStmt.sizes], st.gvars, GvNext.refl hgv, by simp [layoutStmts, runIs, lower, emit]⟩
 
 theorem struct1_simple (s : Stmt) (hf : FragS s = true) (h1 : ∀ c t e, s ≠ .ifThen c t e) (h2 : ∀ c b, s ≠ .repeatWhile c b)
-    (h3 : ∀ v a b d body, s ≠ .repeatWith v a b d body) : Struct1 s :=
-  fun c hT s0 s1 cs h => struct_simple stmtPos s hf (embSrc1_simple h1 h2 h3) c hT s0 s1 cs h
+    (h3 : ∀ v a b d body, s ≠ .repeatWith v a b d body) (h4 : ∀ v l body, s ≠ .repeatIn v l body) : Struct1 s :=
+  fun c hT s0 s1 cs h => struct_simple stmtPos s hf (embSrc1_simple h1 h2 h3 h4) c hT s0 s1 cs h
 
 mutual
 /-- **the structured stack lemma**, for every statement of the fragment -/
@@ -247,15 +548,18 @@ theorem struct1_all : (s : Stmt) → FragT s = true → Struct1 s
   | .repeatWith (.var .loc v) a b down body, h => by
     simp only [FragT, Bool.and_eq_true] at h
     exact struct_with v a b down body h.1.1.2 h.1.2 (structs_all body h.2)
-  | .set lv v, h => struct1_simple _ (by simp only [FragT, Bool.and_eq_true] at h; exact h.1) (by intros; simp) (by intros; simp) (by intros; simp)
-  | .call f as, h => struct1_simple _ (by simpa [FragT] using h) (by intros; simp) (by intros; simp) (by intros; simp)
-  | .exit, _ => struct1_simple _ rfl (by intros; simp) (by intros; simp) (by intros; simp)
-  | .put m v lv, h => struct1_simple _ (by simpa [FragT] using h) (by intros; simp) (by intros; simp) (by intros; simp)
-  | .delete t, h => struct1_simple _ (by simpa [FragT] using h) (by intros; simp) (by intros; simp) (by intros; simp)
-  | .hilite t, h => struct1_simple _ (by simpa [FragT] using h) (by intros; simp) (by intros; simp) (by intros; simp)
-  | .mcall o m as, h => struct1_simple _ (by simpa [FragT] using h) (by intros; simp) (by intros; simp) (by intros; simp)
+  | .set lv v, h => struct1_simple _ (by simp only [FragT, Bool.and_eq_true] at h; exact h.1) (by intros; simp) (by intros; simp) (by intros; simp) (by intros; simp)
+  | .call f as, h => struct1_simple _ (by simpa [FragT] using h) (by intros; simp) (by intros; simp) (by intros; simp) (by intros; simp)
+  | .exit, _ => struct1_simple _ rfl (by intros; simp) (by intros; simp) (by intros; simp) (by intros; simp)
+  | .put m v lv, h => struct1_simple _ (by simpa [FragT] using h) (by intros; simp) (by intros; simp) (by intros; simp) (by intros; simp)
+  | .delete t, h => struct1_simple _ (by simpa [FragT] using h) (by intros; simp) (by intros; simp) (by intros; simp) (by intros; simp)
+  | .hilite t, h => struct1_simple _ (by simpa [FragT] using h) (by intros; simp) (by intros; simp) (by intros; simp) (by intros; simp)
+  | .mcall o m as, h => struct1_simple _ (by simpa [FragT] using h) (by intros; simp) (by intros; simp) (by intros; simp) (by intros; simp)
   | .tell .., h => by simp [FragT] at h
-  | .repeatIn .., h => by simp [FragT] at h
+  | .repeatIn (.var .loc v) l body, h => by
+    simp only [FragT, Bool.and_eq_true] at h
+    exact struct_in v l body h.1.2 (structs_all body h.2)
+  | .repeatIn (.int _) .., h => by simp [FragT] at h
   | .exitRepeat, h => by simp [FragT] at h
   | .repeatWith (.int _) .., h => by simp [FragT] at h
 theorem structs_all : (ss : List Stmt) → FragTs ss = true → Structs ss
